@@ -83,7 +83,7 @@ func (b *Body) instr(in ssa.Instruction, blk *ssa.BasicBlock, reach *T, st State
 	case *ssa.MakeSlice:
 		lv := b.val(x.Len)
 		cv := b.val(x.Cap)
-		b.safety("makeslice", reach, And(A("<=", Int(0), lv.T), A("<=", lv.T, cv.T)), x.Pos(), "make: 0 <= len <= cap")
+		b.safety("makeslice", reach, And(A("<=", Int(0), lv.T), A("<=", lv.T, cv.T), A("<=", lv.T, L("281474976710656"))), x.Pos(), "make: 0 <= len <= cap, len <= 2^48")
 		ref := b.freshRef(x)
 		ft.fact(Eq(A("rlen", ref), lv.T))
 		ft.fact(Eq(A("rcap", ref), cv.T))
@@ -786,7 +786,7 @@ func (b *Body) rangeInstr(x *ssa.Range, st State) {
 	keys := ft.fresh("enum."+b.name(x), "(Array Int "+ks+")")
 	n := ft.fresh("enum.n."+b.name(x), "Int")
 	ft.fact(Eq(n, Sel(ft.region(st, "MN"), mv.T)))
-	ft.fact(A(">=", n, Int(0)))
+	ft.fact(And(A(">=", n, Int(0)), A("<=", n, L("281474976710656"))))
 	b.iterInfo[x] = &mapIter{keys: keys, n: n, m: mv.T, ksort: ks, vsort: vs, kt: mt.Key(), vt: mt.Elem()}
 	st[reg] = Int(0)
 	// enumeration facts: keys distinct and present (w.r.t. the map at range time)
